@@ -1,10 +1,14 @@
 """C14 part 1: protobuf wire codec (std/protowire). See checks/C14.py."""
 import json
+import os
+import sys
 
+sys.path.insert(0, os.path.dirname(os.path.abspath(__file__)))
 from vcheck import coq_list, coq_z
+from C14_common import cbytes, cn, cnums, eval_balanced, exh_inputs, exh_eval
 
 NAME = "wire"
-HEADER = ("From Coq Require Import List NArith ZArith.\nFrom V.C14 Require Import Hex WireModel WireSpec WireRun.\n"
+HEADER = ("From Coq Require Import List NArith ZArith Uint63.\nFrom V.C14 Require Import Hex Exh WireModel WireSpec WireRun.\n"
           "Import ListNotations.\nOpen Scope N_scope.\n")
 
 ERR = {"maxdepth": 1, "tag": 2, "varint": 3, "fixed64": 4, "fixed32": 5, "length": 6, "end": 7,
@@ -174,25 +178,14 @@ def mutate(rng, b):
 
 
 # ---------------------------------------------------------------- Coq printers
-def cbytes(b):
-    b = bytes(b) if not isinstance(b, (bytes, bytearray)) else b
-    if len(b) <= 2:
-        return "[" + ";".join(str(x) for x in b) + "]"
-    return "(hx 0x01%s)" % b.hex()
-
-
-def cnums(l):
-    return "[" + ";".join(str(x) for x in l) + "]"
-
-
 def cfield_gen(f):
     t = f["t"]
     if t == "varint":
-        return "FVarint %d %d" % (f["n"], f["v"])
+        return "FVarint %d %s" % (f["n"], cn(f["v"]))
     if t == "fixed64":
-        return "FFixed64 %d %d" % (f["n"], f["v"])
+        return "FFixed64 %d %s" % (f["n"], cn(f["v"]))
     if t == "fixed32":
-        return "FFixed32 %d %d" % (f["n"], f["v"])
+        return "FFixed32 %d %s" % (f["n"], cn(f["v"]))
     if t == "bytes":
         return "FBytes %d %s" % (f["n"], cbytes(f["v"]))
     if t == "msg":
@@ -210,11 +203,11 @@ def cfield_obs(f, packed):
     t = f["t"]
     n = f["n"]
     if t == "varint":
-        return "FVarint %d %s" % (n, f["v"])
+        return "FVarint %d %s" % (n, cn(f["v"]))
     if t == "fixed64":
-        return "FFixed64 %d %s" % (n, f["v"])
+        return "FFixed64 %d %s" % (n, cn(f["v"]))
     if t == "fixed32":
-        return "FFixed32 %d %s" % (n, f["v"])
+        return "FFixed32 %d %s" % (n, cn(f["v"]))
     if t == "bytes":
         return "FBytes %d %s" % (n, cbytes(bytes.fromhex(f["v"])))
     if t == "msg":
@@ -222,17 +215,51 @@ def cfield_obs(f, packed):
     if t == "group":
         return "FGroup %d %s" % (n, cfields_obs(f["v"], packed))
     if t == "packed32":
-        return "FPacked %d 5 [%s]" % (n, ";".join(f["v"]))
+        return "FPacked %d 5 %s" % (n, cnums(f["v"]))
     if t == "packed64":
         # []uint64 is what Go returns for varint and for fixed64 elements; the element type is
         # the configured one (not observable from the value)
         et = packed.get(n, packed.get(str(n), 0))
-        return "FPacked %d %d [%s]" % (n, et if et != 5 else 0, ";".join(f["v"]))
+        return "FPacked %d %d %s" % (n, et if et != 5 else 0, cnums(f["v"]))
     return "FVarint 0 0 (* unknown %s *)" % t
 
 
 def cfields_obs(fs, packed):
     return "[" + ";".join(cfield_obs(f, packed) for f in fs) + "]"
+
+
+def le(v, n):
+    return int(v).to_bytes(n, "little")
+
+
+def code_field(f, packed):
+    t = f["t"]
+    n = le(f["n"], 4)
+    if t == "varint":
+        return b"\x01" + n + le(f["v"], 8)
+    if t == "fixed64":
+        return b"\x02" + n + le(f["v"], 8)
+    if t == "fixed32":
+        return b"\x03" + n + le(f["v"], 8)
+    if t == "bytes":
+        p = bytes.fromhex(f["v"])
+        return b"\x04" + n + le(len(p), 2) + p
+    if t in ("msg", "group"):
+        return (b"\x05" if t == "msg" else b"\x07") + n + le(len(f["v"]), 2) + b"".join(code_field(g, packed) for g in f["v"])
+    if t == "packed32":
+        return b"\x06" + n + b"\x05" + le(len(f["v"]), 2) + b"".join(le(x, 8) for x in f["v"])
+    if t == "packed64":
+        et = packed.get(f["n"], 0)
+        return b"\x06" + n + bytes([et if et != 5 else 0]) + le(len(f["v"]), 2) + b"".join(le(x, 8) for x in f["v"])
+    return b"\xfe"
+
+
+def code_obs(o, packed):
+    if "fields" in o:
+        return b"\x00" + le(len(o["fields"]), 2) + b"".join(code_field(f, packed) for f in o["fields"])
+    if "err" in o:
+        return bytes([ERR.get(o["err"], 99)])
+    return b"\xfd"
 
 
 def coq_wcase(c, o):
@@ -292,14 +319,8 @@ def run(ck, binary, run_impl, replay):
                 cases[0]["_tree"] = tree_from_json(replay["tree"])
             cases[0].setdefault("_origin", "replay")
     else:
-        # (a) every 1-byte and 2-byte input, default options; 1-byte and a 2-byte sample with message options
+        # (a) every 1-byte and 2-byte input under two option sets: compact transport (Exh.v), see below
         o1 = {"msg": [1, 3], "packed": {2: 0, 4: 5}, "max": 2}
-        for a in range(256):
-            cases.append(mk_parse([a], origin="exh1"))
-            cases.append(mk_parse([a], o1, origin="exh1"))
-        for a in range(256):
-            for b in range(256):
-                cases.append(mk_parse([a, b], origin="exh2"))
         # 3-byte inputs: tag x (length-delimited | group | varint) x 2 bytes, with options (exhaustive on the
         # tag byte's low 3 bits and field numbers 1..4)
         step = 1 if not quick else 3
@@ -348,9 +369,48 @@ def run(ck, binary, run_impl, replay):
         for ln in (0, 1, 2, 127, 128, 129, 300, 16383, 16384):
             prims.append({"k": "wire.prim", "op": "bytes", "hex": bytes(rng.randrange(256) for _ in range(ln)).hex()})
 
-    ck.log("wire: %d parse cases, %d prim cases" % (len(cases), len(prims)))
-    outs = run_impl(ck, binary, [strip(c) for c in cases] + prims)
+    exh = []
+    exh_sets = []
+    if replay is None:
+        exh_sets = [("default", None), ("opts", {"msg": [1, 3], "packed": {2: 0, 4: 5}, "max": 2})]
+        for nm, eo in exh_sets:
+            for b in exh_inputs():
+                exh.append(mk_parse(b, eo, origin="exh12:" + nm))
+    ck.log("wire: %d parse cases, %d prim cases, %d exhaustive short inputs" % (len(cases), len(prims), len(exh)))
+    outs = run_impl(ck, binary, [strip(c) for c in cases] + prims + [strip(c) for c in exh])
     ck.log("wire: implementation ran")
+    o_exh = outs[len(cases) + len(prims):]
+    outs = outs[:len(cases) + len(prims)]
+    if len(o_exh) != len(exh):
+        ck.broken.append("harness-run:wire-exh")
+        return {"evaluations": len(outs), "nontrivial": 0, "traces": 0, "rule": "wire: harness crashed"}
+    nper = len(exh_inputs())
+    for si, (nm, eo) in enumerate(exh_sets):
+        sub_c = exh[si * nper:(si + 1) * nper]
+        sub_o = o_exh[si * nper:(si + 1) * nper]
+        packed = (eo or {}).get("packed", {})
+        codes = []
+        for c, o in zip(sub_c, sub_o):
+            if o.get("panic") or o.get("hang") or o.get("died"):
+                ck.violation("wire:parse:crash:exh", {"part": NAME, "case": strip(c), "impl_out": o,
+                                                      "clause": "decoder total: never crashes / hangs"})
+            # acceptance against the reference walker (no Coq needed)
+            if ("fields" in o) != (o.get("ref") == "ok"):
+                ck.violation("wire:parse:clauses=2:exh:%s" % ("ok" if "fields" in o else o.get("err")),
+                             {"part": NAME, "case": strip(c), "impl_out": o, "clause": CLAUSES[2]})
+            codes.append(code_obs(o, packed))
+        if eo is None:
+            fn = "(wire_exh [] [] [] 0%Z)"
+        else:
+            fn = "(wire_exh %s %s %s %s%%Z)" % (cnums(eo["msg"]), cnums(sorted(eo["packed"])),
+                                               coq_list("(%d,%d)" % kv for kv in sorted(eo["packed"].items())),
+                                               coq_z(eo["max"]))
+        fails = exh_eval(ck, "wire_exh_" + nm, HEADER, fn, codes)
+        for idx in fails[:5]:
+            c, o = sub_c[idx], sub_o[idx]
+            ck.violation("wire:parse:clauses=1:exh:%s" % ("ok" if "fields" in o else o.get("err")),
+                         {"part": NAME, "case": strip(c), "impl_out": o, "clause": CLAUSES[1]})
+    ck.log("wire: exhaustive short inputs evaluated")
     o_cases, o_prims = outs[:len(cases)], outs[len(cases):]
     if len(outs) != len(cases) + len(prims):
         ck.broken.append("harness-run:wire")
@@ -365,7 +425,7 @@ def run(ck, binary, run_impl, replay):
             continue
         terms.append(coq_wcase(c, o))
         idx.append(i)
-    bad = ck.eval_cases("wire", HEADER, terms, "check_wire", shard=6000)
+    bad = eval_balanced(ck, "wire", HEADER, terms, "check_wire")
     ck.log("wire: coq evaluated")
     for j, cls in sorted(bad.items(), key=lambda kv: len(cases[idx[kv[0]]]["hex"])):
         c, o = cases[idx[j]], o_cases[idx[j]]
@@ -416,7 +476,9 @@ def run(ck, binary, run_impl, replay):
     ck.cov["wire_distinct_cases"] = distinct
     if trees:
         ck.samples.append({"wire_tree_case": strip(trees[len(trees) // 2])})
-    return {"evaluations": len(cases) + len(prims), "nontrivial": nontriv, "traces": len(terms) + len(pterms),
+    ck.cov["wire_exhaustive_short_inputs"] = len(exh)
+    return {"evaluations": len(cases) + len(prims) + len(exh), "nontrivial": nontriv,
+            "traces": len(terms) + len(pterms) + len(exh),
             "rule": "wire: all 1- and 2-byte inputs, a 3-byte grid, seeded field trees (options x nesting up to 70) "
                     "canonically encoded, 2-4 grammar-aware mutants of each (truncate, bit flip, overlong varint, stray "
                     "end-group, insert, length bump, duplicate slice, wire-type change); non-trivial = distinct input of "
